@@ -76,6 +76,15 @@ def mk_patt(item):
     return pm.MeshPatt(pm.Perm(item[1]), [tuple(c) for c in item[2]])
 
 
+def mk_basis_obj(items):
+    """The Basis / MeshBasis object of a JSON basis (built ahead of time, so that the Av
+    object created from it later is the next allocation of its size)."""
+    from permuta.perm_sets.basis import Basis, MeshBasis  # pylint: disable=import-outside-toplevel
+
+    patts = [mk_patt(it) for it in items]
+    return MeshBasis(*patts) if is_mesh_items(items) else Basis(*patts)
+
+
 def mk_av(items, form, salt=0):
     """Build Av(...) from the JSON basis in the requested argument form."""
     pm = lazy_permuta()
